@@ -72,10 +72,10 @@ def build_profile(patterns) -> list:
     # then the peaks (heating early in the day, cooling later; a 30 h plateau runs into the next day / month)
     for m0, p in enumerate(patterns):
         s = month_start_hour(m0)
-        ln = {"1h": 1, "6h": 6, "30h": 30}[p.get("shape", "1h")]
+        ln = {"1h": 1, "6h": 6, "24h": 24, "30h": 30}[p.get("shape", "1h")]
         if p["dir"] in ("h", "both"):
             d = day_index(p["hday"], m0)
-            hl = ln if p["dir"] == "h" else min(ln, 6)
+            hl = ln if p["dir"] == "h" else min(ln, 6)  # ("24h" with hh / ch = 0: the load is held at its maximum through a whole day)
             _put(loads, s + 24 * d + p.get("hh", 2), hl, p["ph"] * 1000.0)
         if p["dir"] in ("c", "both"):
             d = day_index(p["cday"], m0)
